@@ -13,6 +13,7 @@ from geostructures import (Coordinate, GeoBox, GeoCircle, GeoEllipse, GeoLineStr
                            GeoRing, MultiGeoLineString, MultiGeoPoint, MultiGeoPolygon, FeatureCollection, Track)
 from geostructures.calc import haversine_distance_meters as hav, inverse_haversine_degrees as dest  # noqa: E402
 from shapes import mk_dt  # noqa: E402
+import c09d  # noqa: E402  (1% clause for wedges: translator tie, interval correspondence, dense-outline oracle)
 import c09c  # noqa: E402  (1% clause: real-number model of curved bounds, its translator tie and interval correspondence)
 import gen_bounds  # noqa: E402  (tools/: translator tie for bounds / rectangles / farthest-vertex circles)
 from lib import REPO  # noqa: E402
@@ -200,7 +201,7 @@ def smallest_cap(pts):
 
 def main():
     ck = Check('C09')
-    ck.build_theories(['theories/Props/C09.vo', 'theories/Props/C09b.vo', 'theories/Props/C09c.vo', 'theories/Corr/BoundsK.vo', 'theories/Corr/BoundsCurveK.vo'])
+    ck.build_theories(['theories/Props/C09.vo', 'theories/Props/C09b.vo', 'theories/Props/C09c.vo', 'theories/Props/C09d.vo', 'theories/Corr/BoundsK.vo', 'theories/Corr/BoundsCurveK.vo', 'theories/Corr/BoundsWedgeK.vo'])
     rep = gen_bounds.main(REPO, os.path.join(ck.rundir, 'BoundsGen.v'))   # bounds / rectangles / circles regenerated from the source ...
     ck.gen('BoundsGen.v', rep, 'BoundsGenEq.v')                           # ... proved equal to BoundsM / ShapeM.multi_bounds for all arguments
     ck.props('Props/C09.v')
@@ -738,7 +739,8 @@ def main():
     for pv in shown:
         ck.violation({'kind': 'property-fails-on-implementation', 'case': pv})
     c09c.run(ck)
-    ck.finish(rule=c09c.RULE + '. ' + 'seeded random vertex shapes on a half-degree grid (polygons, linestrings incl. retraced, points, boxes), their circumscribing '
+    c09d.run(ck)
+    ck.finish(rule=c09c.RULE + '. ' + c09d.RULE + '. ' + 'seeded random vertex shapes on a half-degree grid (polygons, linestrings incl. retraced, points, boxes), their circumscribing '
                    'rectangles, unions over multi-shapes / FeatureCollection / Track, centroid+farthest-vertex circles (linestring, multi-*, wedge) with the '
                    'implementation own distances as order-preserving integers, box circles; seeded random curved shapes (circle / ellipse / full ring / '
                    'wedge, any longitude, |lat| <= 80, 20 m .. 200 km) on which 1-3 random read-only calls carrying an outline resolution k (coarser, '
@@ -749,8 +751,8 @@ def main():
                    '16 small acute triples; 28 polygons straddling the antimeridian vs the brute-force smallest enclosing cap). '
                    'non-trivial = distinct vertex sets / bounds lists / distance lists / (shape, history) pairs',
               assumptions=['distance function abstract in the theorems (any function); C07 relates it to the great circle',
-                           'NOT decided by proof: polygon Welzl circle (correctness, minimality, seed independence), the 1% figure for WEDGE bounds, '
-                           '1e-6 enclosure for circle/ellipse/ring circles in floats - exercised on fixed corpora only'] + c09c.ASSUMPTIONS)
+                           'NOT decided by proof: polygon Welzl circle (correctness, minimality, seed independence), '
+                           '1e-6 enclosure for circle/ellipse/ring circles in floats - exercised on fixed corpora only'] + c09c.ASSUMPTIONS + c09d.ASSUMPTIONS)
 
 
 if __name__ == '__main__':
@@ -761,6 +763,8 @@ if __name__ == '__main__':
         cs = r.get('case') if isinstance(r.get('case'), dict) else {}
         if cs.get('k') == 'curved-bounds':
             c09c.replay(cs)
+        elif cs.get('k') == 'wedge-bounds':
+            c09d.replay(cs)
         elif 'shape' in cs and ('history' in cs or 'history_before_first_read_of_bounds' in cs):
             hist = cs.get('history', cs.get('history_before_first_read_of_bounds'))
             S, T = c09c.build(cs['shape']), c09c.build(cs['shape'])
